@@ -3,6 +3,7 @@
 
 use crate::bk::{build_ok, eval_ix, LAYOUTS, NAMES};
 use crate::model::*;
+use crate::vals::{model_stat, stat_tols, Stat};
 use mc_core::{self as mc, json};
 
 fn digest(outs: &[Out]) -> u64 {
@@ -24,6 +25,14 @@ fn digest(outs: &[Out]) -> u64 {
 /// Site key `<backend>.<operation>:<input-class>[-nonstandard-layout][-panics|-accepted]`.
 fn site_key(ix: usize, op: &Op, a: &M, b: Option<&M>, out: &Out, exp: &Exp, layout_induced: bool) -> String {
     let mut class = input_class(op, a, b, out.is_err());
+    // value families (predicates of the failing input): data far from the origin compared with
+    // their spread; two different values within 4 ulps of each other among the operands' entries
+    if off_centre(a) {
+        class.push_str("-off-centre-data");
+    }
+    if !class.contains("epsilon") && has_near_pair(&[&a.v[..], b.map(|m| &m.v[..]).unwrap_or(&[])].concat()) {
+        class.push_str("-nearly-equal-values");
+    }
     if layout_induced {
         class.push_str("-nonstandard-layout");
     }
@@ -45,6 +54,14 @@ fn site_key(ix: usize, op: &Op, a: &M, b: Option<&M>, out: &Out, exp: &Exp, layo
 /// (matrix layout or vector source).
 /// Returns whether the operands are inside the operation's domain (the model gives values).
 pub fn case(op: &Op, a: &M, la: usize, b: Option<(&M, usize)>) -> bool {
+    case_with(op, a, la, b, None)
+}
+
+/// `stat` (off-centre value family, `vals.rs`): the reference is the exact statistic (computed on
+/// the data minus their offset) and the moment operations are compared with absolute tolerances
+/// stated relative to the spread of the data - between the backends as well as with the reference.
+/// The verdict rule is the same.
+pub fn case_with(op: &Op, a: &M, la: usize, b: Option<(&M, usize)>, stat: Option<&Stat>) -> bool {
     let bm = b.map(|x| x.0);
     let lb = b.map(|x| x.1).unwrap_or(0);
     let is_vec = (op.k as usize) >= (K::VBasic as usize);
@@ -57,11 +74,16 @@ pub fn case(op: &Op, a: &M, la: usize, b: Option<(&M, usize)>) -> bool {
             }
         }
     }
-    let exp = model(op, a, bm);
+    let exp = match stat {
+        Some(st) => model_stat(op, a, st.off),
+        None => model(op, a, bm),
+    };
+    let abs: Vec<f64> = stat.map(|st| stat_tols(op, st)).unwrap_or_default();
+    let abs = &abs[..];
     let outs: Vec<Out> = (0..3).map(|ix| eval_ix(ix, op, a, la, b)).collect();
     let scale = a.max_abs().max(bm.map(|m| m.max_abs()).unwrap_or(0.0)).max(1.0);
-    let agree = outs_agree(&outs[0], &outs[1], scale) && outs_agree(&outs[0], &outs[2], scale) && outs_agree(&outs[1], &outs[2], scale);
-    let matches: Vec<bool> = outs.iter().map(|o| out_matches(o, &exp, scale)).collect();
+    let agree = outs_agree(&outs[0], &outs[1], scale, abs) && outs_agree(&outs[0], &outs[2], scale, abs) && outs_agree(&outs[1], &outs[2], scale, abs);
+    let matches: Vec<bool> = outs.iter().map(|o| out_matches(o, &exp, scale, abs)).collect();
     let all_match = matches.iter().all(|m| *m);
     mc::outcome(digest(&outs));
     match &exp {
@@ -85,16 +107,32 @@ pub fn case(op: &Op, a: &M, la: usize, b: Option<(&M, usize)>) -> bool {
     // calibration record: worst deviation from the model among the backends that match it
     if let Exp::Val(want) = &exp {
         let mut worst = 0.0f64;
+        // off-centre family: worst deviation as a fraction of the (spread-relative) tolerance
+        let mut worst_of_tol = 0.0f64;
         for (ix, o) in outs.iter().enumerate() {
             if let (true, Ok(got)) = (matches[ix], o) {
-                for (g, w) in got.iter().zip(want) {
+                for (k, (g, w)) in got.iter().zip(want).enumerate() {
                     for (x, y) in g.d.iter().zip(&w.d) {
                         if x != y && x.is_finite() && y.is_finite() {
-                            worst = worst.max((x - y).abs() / x.abs().max(y.abs()).max(scale));
+                            match abs.get(k) {
+                                Some(t) => worst_of_tol = worst_of_tol.max((x - y).abs() / t),
+                                None => worst = worst.max((x - y).abs() / x.abs().max(y.abs()).max(scale)),
+                            }
                         }
                     }
                 }
             }
+        }
+        if !abs.is_empty() && matches.iter().any(|m| *m) {
+            mc::count(if worst_of_tol == 0.0 {
+                "offset_moment_deviation_none"
+            } else if worst_of_tol <= 1e-3 {
+                "offset_moment_deviation_le_1e-3_of_tolerance"
+            } else if worst_of_tol <= 1e-1 {
+                "offset_moment_deviation_le_1e-1_of_tolerance"
+            } else {
+                "offset_moment_deviation_le_tolerance"
+            });
         }
         mc::count(if worst == 0.0 {
             "deviation_from_model_none"
@@ -110,6 +148,11 @@ pub fn case(op: &Op, a: &M, la: usize, b: Option<(&M, usize)>) -> bool {
         // the three backends do the same thing, which is not what the textbook model does: not a
         // backend-equivalence matter unless the statement names the operation explicitly
         mc::count(if matches!(exp, Exp::Reject) { "mismatch_accepted_alike_by_all_three" } else { "all_three_agree_but_model_differs" });
+        if stat.is_some() && matches!(op.k, K::Var | K::Std) {
+            // the one-pass formula of the default `MatrixStats::var` / `std`, shared by the three
+            // backends (a KNOWN finding of C03: stats.var:large-offset, stats.std:large-offset)
+            mc::count("offset_one_pass_variance_shared_by_all_three_backends_counted_only");
+        }
     }
     let bad = !(all_match || (agree && !op.explicit_clause()));
     if bad {
@@ -118,7 +161,7 @@ pub fn case(op: &Op, a: &M, la: usize, b: Option<(&M, usize)>) -> bool {
                 continue;
             }
             // is the failure induced by the non-standard layout? (diagnostic only: same case, standard layout)
-            let layout_induced = !is_vec && la + lb > 0 && out_matches(&eval_ix(ix, op, a, 0, bm.map(|m| (m, 0))), &exp, scale);
+            let layout_induced = !is_vec && la + lb > 0 && out_matches(&eval_ix(ix, op, a, 0, bm.map(|m| (m, 0))), &exp, scale, abs);
             let site = site_key(ix, op, a, bm, &outs[ix], &exp, layout_induced);
             let others: Vec<String> = (0..3).filter(|j| *j != ix).map(|j| format!("{}: {}", NAMES[j], show_out(&outs[j]))).collect();
             mc::violation(
@@ -151,6 +194,7 @@ pub fn case(op: &Op, a: &M, la: usize, b: Option<(&M, usize)>) -> bool {
             "a": compact(a), "a_layout": if is_vec { format!("vector source {}", la) } else { LAYOUTS[la].to_string() },
             "b": bm.map(compact), "b_layout": if is_vec { format!("vector source {}", lb) } else { LAYOUTS[lb].to_string() },
             "reference_model": show_exp(&exp),
+            "off_centre_family": stat.map(|st| format!("offset {}, spread {}, absolute tolerances per returned value {:?} (others: relative 1e-10)", st.off, st.spread, abs)),
             "dense": show_out(&outs[0]), "ndarray": show_out(&outs[1]), "nalgebra": show_out(&outs[2]),
         })
     });
